@@ -412,6 +412,7 @@ class QueryScheduler:
         """Reschedule a query for a pointer."""
         current = self._next_scheduled_for_alias.get(pointer.alias_key)
         refresh_time_millis = pointer.get_expiration_time(_EXPIRE_REFRESH_TIME_PERCENT)
+        expire_time_millis = pointer.get_expiration_time(100)
         if current is not None:
             # If the expire time is within self._min_time_between_queries_millis
             # of the current scheduled time avoid churn by not rescheduling
@@ -420,10 +421,13 @@ class QueryScheduler:
                 <= refresh_time_millis - current.when_millis
                 <= self._min_time_between_queries_millis
             ):
+                # The query stays where it is, but the rescue queries that follow it
+                # must step by the TTL and stop at the expiry of the record as it is now
+                current.ttl = int(pointer.ttl) if isinstance(pointer.ttl, float) else pointer.ttl
+                current.expire_time_millis = expire_time_millis
                 return
             current.cancelled = True
             del self._next_scheduled_for_alias[pointer.alias_key]
-        expire_time_millis = pointer.get_expiration_time(100)
         self._schedule_ptr_refresh(pointer, expire_time_millis, refresh_time_millis)
 
     def schedule_rescue_query(
